@@ -1043,6 +1043,7 @@ func run(r *evid.Run) {
 	if perDim["job-order"] == 0 {
 		r.Incomplete("vacuity: no thread.Parallelize call with >= 2 jobs was seen")
 	}
+	racePass(r)
 }
 
 // overlappingPathsScenario: target paths that contain each other, listed in every order (the argument order of
